@@ -428,7 +428,20 @@ def no_use_before_assignment(ctx, model, prop, rule, prefixes, exact_modules=Fal
                     if it.optional_vars is not None:
                         maybe.update(self.targets(it.optional_vars))
                 self.block(st.body, maybe)
-            elif isinstance(st, _ast.Try):
+            elif isinstance(st, getattr(_ast, "Match", ())):
+                self.loads(st.subject, maybe)
+                after = set(maybe)
+                for case in st.cases:
+                    m_ = set(maybe)
+                    for x in _ast.walk(case.pattern):       # capture patterns bind names
+                        for fld in ("name", "rest"):
+                            if isinstance(getattr(x, fld, None), str):
+                                m_.add(getattr(x, fld))
+                    self.loads(case.guard, m_)
+                    self.block(case.body, m_)
+                    after |= m_
+                maybe.update(after)
+            elif isinstance(st, (_ast.Try, getattr(_ast, "TryStar", _ast.Try))):
                 self.block(st.body, maybe)
                 for h in st.handlers:
                     if h.name:
@@ -459,15 +472,25 @@ def no_use_before_assignment(ctx, model, prop, rule, prefixes, exact_modules=Fal
             args = fnode.args
             params = {a_.arg for a_ in args.posonlyargs + args.args + args.kwonlyargs} | ({args.vararg.arg} if args.vararg else set()) | \
                 ({args.kwarg.arg} if args.kwarg else set())
-            stored, declared = set(), set()
+            stored, declared, walrus_in_comp = set(), set(), set()
 
             def collect(node):
                 for ch in _ast.iter_child_nodes(node):
                     if isinstance(ch, (_ast.FunctionDef, _ast.AsyncFunctionDef, _ast.ClassDef)):
                         stored.add(ch.name)
                         continue
-                    if isinstance(ch, (_ast.Lambda, _ast.ListComp, _ast.SetComp, _ast.DictComp, _ast.GeneratorExp)):
+                    if isinstance(ch, (_ast.ListComp, _ast.SetComp, _ast.DictComp, _ast.GeneratorExp)):
+                        for w_ in _ast.walk(ch):      # `:=` inside a comprehension binds in the enclosing function
+                            if isinstance(w_, _ast.NamedExpr) and isinstance(w_.target, _ast.Name):
+                                stored.add(w_.target.id)
+                                walrus_in_comp.add(w_.target.id)
                         continue
+                    if isinstance(ch, _ast.Lambda):
+                        continue
+                    if type(ch).__name__ in ("MatchAs", "MatchStar", "MatchMapping"):
+                        for fld in ("name", "rest"):
+                            if isinstance(getattr(ch, fld, None), str):
+                                stored.add(getattr(ch, fld))
                     if isinstance(ch, (_ast.Global, _ast.Nonlocal)):
                         declared.update(ch.names)
                     if isinstance(ch, _ast.Name) and isinstance(ch.ctx, _ast.Store):
@@ -481,7 +504,7 @@ def no_use_before_assignment(ctx, model, prop, rule, prefixes, exact_modules=Fal
             collect(fnode)
             fl.locals = stored - declared - params
             import builtins as _bi
-            mod_names = set(m.imports) | set(m.functions) | set(m.classes) | set(m.assigns) | set(dir(_bi)) | {"__file__", "__name__", "__doc__", "__class__"}
+            mod_names = set(m.imports) | set(m.functions) | set(m.classes) | set(m.assigns) | set(dir(_bi)) | {"__file__", "__name__", "__doc__", "__class__", "__package__", "__spec__", "__loader__", "__path__", "__builtins__", "__annotations__", "__dict__", "__module__", "__qualname__"}
             def top_level(stmts):       # names bound by module-level statements (also inside module-level if / try / for / with blocks)
                 for st_ in stmts:
                     if isinstance(st_, (_ast.FunctionDef, _ast.AsyncFunctionDef, _ast.ClassDef)):
@@ -501,7 +524,10 @@ def no_use_before_assignment(ctx, model, prop, rule, prefixes, exact_modules=Fal
             fl.known_globals = mod_names if not star else None
             if star:
                 fl.known_globals = type("Everything", (), {"__contains__": lambda self_, k_: True})()
-            fl.block(fnode.body, set(params))
+            for fn_ in _ast.walk(m.tree):       # a name made global by some function of the module and assigned there
+                if isinstance(fn_, _ast.Global):
+                    mod_names.update(fn_.names)
+            fl.block(fnode.body, set(params) | walrus_in_comp)
             for x in fl.undefined[:3]:
                 ctx.ob(False, Finding(f"{prop}.{rule}", fi.where, f"{fi.short}|undefined-name:{x.id}",
                                       f"line {x.lineno}: `{x.id}` is read in {fi.short} but is bound nowhere (not a local, a parameter, a module-level "
